@@ -175,10 +175,16 @@ def _extra_text(rng):
         return rng.choice(["0", "1", w, "Bernoulli(1/2)", f"{w} {{1/2}} 0", f"1 {{1/3}} {w}"])
 
     lines = [f"{v} = {rng.choice([0, 1])}" for v in vs] + ["while true:"]
-    for v in vs:
+    pool = [cond() for _ in range(2)]
+    if rng.random() < 0.6:
+        # a condition evaluated on the values of the previous iteration, before the draws
+        lines.append(f"    if {rng.choice(pool)}:")
+        v = rng.choice(vs)
+        lines.append(f"        {v} = {rhs(v)}")
+        lines.append("    end")
+    for v in (vs if rng.random() < 0.4 else rng.sample(vs, len(vs) - 1)):
         lines.append("    " + rng.choice([f"{v} = Bernoulli({rng.choice(['1/2', '1/3', '3/4'])})", f"{v} = DiscreteUniform(0, 2)",
                                           f"{v} = 0 {{1/2}} 2", f"{v} = Bernoulli(1/2)"]))
-    pool = [cond() for _ in range(2)]
     for _ in range(rng.choice([2, 3, 3, 4])):
         if rng.random() < 0.25:
             v = rng.choice(vs)
@@ -201,6 +207,22 @@ def _extra_text(rng):
     return "\n".join(lines) + "\n"
 
 
+FIXED = [
+    # the alias of a + b > c must not be reused after a (assigned once, so it keeps its name) is drawn
+    "a = 0\nb = 1\nc = 0\nd = 0\nwhile true:\n    if a + b > c:\n        d = 1\n    end\n    a = Bernoulli(1/2)\n"
+    "    if a + b > c:\n        d = 0 {1/2} d\n    end\n    b = Bernoulli(1/3)\nend\n",
+    # reuse: same atom in two statements and in two assignments of one branch, nothing assigned in between
+    "a = 0\nb = 1\nc = 0\nd = 0\ne = 0\nwhile true:\n    a = Bernoulli(1/2)\n    b = DiscreteUniform(0, 2)\n    if a + b > c + 1:\n"
+    "        d = 1\n        e = b\n    end\n    if a + b > c + 1:\n        e = 0\n    end\n    c = Bernoulli(1/4)\nend\n",
+    # boolean structure, an already reduced atom, the same atom under two comparison operators
+    "a = 0\nb = 1\nc = 0\nd = 0\nwhile true:\n    a = Bernoulli(1/2)\n    b = Bernoulli(1/3)\n    c = DiscreteUniform(0, 2)\n"
+    "    if !(a + b > c) && (a*b == c || a == 1):\n        d = 1\n    elif a + b < c:\n        d = 2\n    else:\n        d = 0\n    end\nend\n",
+    # three assignments to x, the middle one guarded; versions in conditions and defaults
+    "x = 0\ny = 0\nwhile true:\n    x = Bernoulli(1/2)\n    y = Bernoulli(1/2)\n    if x + y > 1:\n        x = x - y\n        y = x\n    end\n"
+    "    x = 1 - x\nend\n",
+]
+
+
 def extra_runs(ctx, lib):
     """programs that exercise the two passes (the generator of checks/c02.py only compares
     variables with integers): normalised by the real Polar with per-pass snapshots; computed
@@ -209,7 +231,8 @@ def extra_runs(ctx, lib):
     if cached is not None:
         return cached
     n = ctx.pick(16, 200)
-    texts = []
+    texts = list(FIXED)
+    n += len(texts)
     while len(texts) < n:
         t = _extra_text(ctx.rng)
         if t not in texts:
